@@ -161,6 +161,10 @@ pub fn c26_profile() -> Profile {
 }
 
 pub fn gen_c26(run_seed: u64) -> Result<Scenario, String> {
+    gen_c26_for("C26", run_seed)
+}
+
+pub fn gen_c26_for(property: &str, run_seed: u64) -> Result<Scenario, String> {
     let mut rng = Rng::new(run_seed);
     let p = c26_profile();
     let mut st = GenState::new();
@@ -173,13 +177,20 @@ pub fn gen_c26(run_seed: u64) -> Result<Scenario, String> {
     }
     // layout: every module once in order, with other pieces in between
     for i in 0..n_mod as u32 {
-        if rng.chance(1, 4) {
+        if rng.chance(1, 3) {
+            // a run of one or two custom sections
             plan.layout.push(Piece::Custom(rng.bytes(3)));
+            if rng.chance(1, 3) {
+                plan.layout.push(Piece::Custom(rng.bytes(3)));
+            }
         }
         if rng.chance(1, 5) {
             plan.layout.push(Piece::Nested(vec![rng.below(n_mod) as u32]));
         }
         plan.layout.push(Piece::Module(i));
+    }
+    if rng.chance(1, 3) {
+        plan.layout.push(Piece::Custom(rng.bytes(3)));
     }
     let order = plan.module_order();
     // skip map
@@ -278,7 +289,7 @@ pub fn gen_c26(run_seed: u64) -> Result<Scenario, String> {
     plan.finish = *rng.pick(&[0u8, 1, 1, 2, 2, 2, 3]);
     let hash_seed = rng.next();
     Ok(Scenario {
-        property: "C26".into(),
+        property: property.into(),
         profile: "component".into(),
         seed: run_seed,
         hash_seed,
@@ -354,12 +365,33 @@ pub fn extract_modules(comp_bytes: &[u8]) -> Result<Vec<Vec<u8>>, String> {
     Ok(v)
 }
 
+/// data of the `cst` custom sections at the top level of a component, in order
+fn top_level_customs(comp_bytes: &[u8]) -> Vec<Vec<u8>> {
+    let mut v = vec![];
+    let mut depth = 0;
+    for p in wasmparser::Parser::new(0).parse_all(comp_bytes) {
+        match p {
+            Ok(wasmparser::Payload::ModuleSection { .. }) | Ok(wasmparser::Payload::ComponentSection { .. }) => depth += 1,
+            Ok(wasmparser::Payload::End(_)) => {
+                if depth > 0 {
+                    depth -= 1;
+                }
+            }
+            Ok(wasmparser::Payload::CustomSection(c)) if depth == 0 && c.name() == "cst" => v.push(c.data().to_vec()),
+            Err(_) => break,
+            _ => {}
+        }
+    }
+    v
+}
+
 pub fn judge_c26(sc: &Scenario) -> (Judged, RunResult) {
     let dummy = crate::exec::run(&Scenario {
         tail: vec![],
         ..Default::default()
     });
     let mut owned = vec![];
+    let mut customs_mm: Vec<Mismatch> = vec![];
     let plan = match &sc.comp {
         Some(p) => p,
         None => {
@@ -655,6 +687,15 @@ pub fn judge_c26(sc: &Scenario) -> (Judged, RunResult) {
         Err(p) => owned.push(Mismatch::new("comp_vs_module_bytes", &format!("encode_panic:{}", p.sig()), format!("{:?}", p))),
         Ok(bytes) => match extract_modules(&bytes) {
             Err(e) => owned.push(Mismatch::new("comp_vs_module_bytes", "unparseable", e)),
+            Ok(_) if {
+                // the component's own custom sections (C28): names, contents and order as in the input
+                let want: Vec<Vec<u8>> = plan.layout.iter().filter_map(|p| if let Piece::Custom(d) = p { Some(d.clone()) } else { None }).collect();
+                let got = top_level_customs(&bytes);
+                if got != want {
+                    customs_mm.push(Mismatch::new("custom_section", "component", format!("top-level custom sections of the encoded component {:?}, of the input {:?}", got, want)));
+                }
+                false
+            } => {}
             Ok(mods) => {
                 if mods.len() != twin_bytes.len() {
                     owned.push(Mismatch::new("comp_vs_module_bytes", "module_count", format!("{} vs {}", mods.len(), twin_bytes.len())));
@@ -676,10 +717,11 @@ pub fn judge_c26(sc: &Scenario) -> (Judged, RunResult) {
         },
     }
     (
-        Judged {
-            owned,
-            others: vec![],
-            harness_error: None,
+        // the component's custom sections belong to C28: under C26 they are an observation
+        if sc.property == "C28" {
+            Judged { owned: customs_mm, others: owned, harness_error: None }
+        } else {
+            Judged { owned, others: customs_mm, harness_error: None }
         },
         dummy,
     )
